@@ -90,6 +90,8 @@ def check_groups(pid, tier, groups, assumptions, chunks=10, post=None, module="E
         detail["groups"][fam] = dict(sessions=len(sessions), configs=[sess.mode_tag(m, e) for m, e in configs])
     if post:
         post(V, all_results, detail)
+    states += detail.pop("extra_states", 0)
+    trans += detail.pop("extra_transitions", 0)
     results = all_results
     nev = sum(len(ev) for _, ev, _, _ in results)
     dn = len({json.dumps(e["tabs"], sort_keys=True) for _, ev, _, _ in results for e in ev
